@@ -16,7 +16,7 @@ pub fn def() -> PropDef {
         check,
         nontrivial,
         rule: "(5/6) C01's client programs with concurrent calls from 1-4 clients through all handle kinds plus one termination cause (stop, halt, try_stop, Context::stop, consume, last strong handle dropped, started error, handler panic, timeout failure, task cancellation before the j-th poll or at a global step) at a random position, awaiters and joins; (1/6) C13's programs against stream-attached actors incl. saturated streams; x seeded schedules; non-trivial = two calls were pending at once or the actor died with a call/ping pending; distinct = distinct order of client-op and callback events",
-        needed_probes: &["c02_reply_checked", "call_pending_at_death", "c02_op_after_death_checked"],
+        needed_probes: &["c02_reply_checked", "call_pending_at_death", "c02_op_after_death_checked", "c02_await_result_checked"],
         quick_runs: 100_000,
         thorough_runs: 2_000_000,
         block: 1,
@@ -147,6 +147,20 @@ pub fn check(v: &View) -> Vec<Violation> {
                 &format!("{}:{:?}", op_name(o.inner), o.hk),
                 format!("client {} op {} ({:?}) begun at seq {} never returned ({})", o.client, o.idx, o.inner, o.begin, if v.out.outcome.hung { "system quiescent" } else { "step cap under fair scheduling" }),
             ));
+        }
+    }
+    // (2b) awaits resolve *with the termination result*: an error when the actor failed
+    for o in v.ops.iter().filter(|o| matches!(o.inner, Op::Await { .. }) && o.ended() && !o.skipped()) {
+        let Some(a) = o.target.and_then(|t| v.actor_of(t)) else { continue };
+        if a.dead.is_none() {
+            continue;
+        }
+        crate::log::probe("c02_await_result_checked");
+        let graceful = v.graceful(a);
+        match o.res {
+            Some(Res::Ok) if !graceful => out.push(violation(P, "await-ok-although-failed", "", format!("awaiting the address of actor {:?} returned Ok although the actor failed (how {:?}, fault injected: {})", a.aidx, a.how, v.fault_injected(a)))),
+            Some(Res::Err(_)) if graceful => out.push(violation(P, "await-err-although-graceful", "", format!("awaiting the address of actor {:?} returned an error although it terminated gracefully", a.aidx))),
+            _ => {}
         }
     }
     // (3) operations begun after the actor's task ended fail
